@@ -937,7 +937,9 @@ class Emitter:
         if k == "bool":
             return ("true" if e[1] else "false"), "bool"
         if k == "float":
-            raise Untranslatable("floating-point literal")
+            if re.match(r"^\d+\.0$", e[1]):
+                return "(f_of_Z %s)" % e[1][:-2], "f32"
+            raise Untranslatable("floating-point literal %s" % e[1])
         if k == "var":
             if e[1] in self.env:
                 return self.env[e[1]]
@@ -1050,7 +1052,12 @@ class Emitter:
         raise Untranslatable("unary %s" % op)
 
     def cast(self, e, want):
-        target = norm_ty(e[2], self.self_ty)
+        target = norm_ty(e[2], self.self_ty) if not (isinstance(e[2], str) and e[2] == "f32") else "f32"
+        if target == "f32":
+            a, t = self.ex(e[1])
+            if not is_int(t):
+                raise Untranslatable("cast of %r to f32" % (t,))
+            return "(f_of_Z %s)" % a, "f32"
         if not is_int(target):
             raise Untranslatable("cast to %r" % (target,))
         inner = e[1]
@@ -1058,6 +1065,10 @@ class Emitter:
             a, t = self.ex(inner, target)
             return a, target
         a, t = self.ex(inner)
+        if t == "f32":
+            if target == "usize":
+                return "(f_to_usize %s)" % a, target
+            raise Untranslatable("cast of f32 to %s" % target)
         if t == "bool":
             return "(if %s then 1 else 0)" % a, target
         if is_lane(t):
@@ -1140,6 +1151,11 @@ class Emitter:
             tb = ta
         if is_lane(tb) and is_int(ta) and ta == tb[1]:
             ta = tb
+        if ta == "f32" and tb == "f32":
+            fn = {"+": "fadd", "*": "fmul", "/": "fdiv"}.get(op)
+            if fn is None:
+                raise Untranslatable("float operator %s" % op)
+            return "(%s %s %s)" % (fn, a, b), "f32"
         if ta != tb:
             raise Untranslatable("operator %s on %r and %r" % (op, ta, tb))
         u = self.underlying(ta)
@@ -1189,6 +1205,10 @@ class Emitter:
             raise Untranslatable("conversion method .%s()" % name)
         # calls of translated methods (e.g. self.median_of) go through the known table
         a, t = self.ex(recv, want if name in ("abs", "max", "min", "clamp", "signum") else None)
+        if t == "f32":
+            if name == "ceil" and not args:
+                return "(fceil %s)" % a, "f32"
+            raise Untranslatable("float method .%s()" % name)
         u = self.underlying(t)
         key = (t if isinstance(t, str) else None, name)
         if key in self.known:
@@ -1682,9 +1702,9 @@ HEADER = ("(* GENERATED by tools/rs2v.py (rs2v_kernels) from %s -- do not edit.\
           "From H263V Require Import base.Prelude base.Checked.\n\n")
 
 
-def run_group(repo, status, fname, rel, items, write):
+def run_group(repo, status, fname, rel, items, write, extra_import=""):
     """items: list of dicts(kind='fn'|'frag', ...); later items may call earlier ones."""
-    body = HEADER % rel
+    body = HEADER % rel + extra_import + ("\n" if extra_import else "")
     known = {}
     try:
         src = Source(repo, rel)
@@ -1754,6 +1774,16 @@ def gen_kernels(repo, status, write):
              free={"in_force_quantizer": ("in_force_quantizer", "u8"), "d_quantizer": ("d_quantizer", ("opt", "i8"))},
              result="in_force_quantizer"),
     ], write)
+    run_group(repo, status, "GenKPicture.v", "h263/src/decoder/picture.rs", [
+        dict(kind="frag", fn="new", coq="k_luma_samples", params="(w h : Z)", steps=[("let", "luma_samples")],
+             free={"w": ("w", "u16"), "h": ("h", "u16")}, result="luma_samples"),
+        dict(kind="frag", fn="new", coq="k_chroma_w", params="(w : Z)", steps=[("let", "chroma_w")],
+             free={"w": ("w", "u16")}, result="chroma_w"),
+        dict(kind="frag", fn="new", coq="k_chroma_h", params="(h : Z)", steps=[("let", "chroma_h")],
+             free={"h": ("h", "u16")}, result="chroma_h"),
+        dict(kind="frag", fn="new", coq="k_chroma_samples", params="(chroma_w chroma_h : Z)", steps=[("let", "chroma_samples")],
+             free={"chroma_w": ("chroma_w", "usize"), "chroma_h": ("chroma_h", "usize")}, result="chroma_samples"),
+    ], write, extra_import="From H263V Require Import model.F32.\n")
     run_group(repo, status, "GenKGather.v", "h263/src/decoder/cpu/gather.rs", [
         dict(kind="fn", name="lerp", coq="k_lerp"),
         dict(kind="frag", fn="read_sample", coq="k_read_sample_x", params="(x samples_per_row : Z)",
